@@ -360,6 +360,7 @@ std::string write_replay(const Raw& raw, const std::string& sig, const std::stri
 	std::string path = g_replaydir + "/" + harness::ID + "-" + name + ".case";
 	std::ofstream os(path);
 	os << "# property " << harness::ID << "\n# signature " << sig << "\n";
+	if (const char* am = getenv("VERIF_ALLOC")) os << "# allocator " << am << "\n";
 	{
 		std::istringstream is(msg); std::string l;
 		while (std::getline(is, l)) os << "# message " << l << "\n";
